@@ -229,6 +229,13 @@ EXTRA = {
     "C05": " Also: zeros carrying free indices of different extents under binding in either index order, and the elementary functions at their rational points.",
     "C09": " Also: compound algebra over K.J (dot, det, sym, skew, cofac, ...) whose lowering instantiates one summation index object with several partners.",
     "C10": " Also: zeros with two free indices of different extents hidden in conditionals and closed by transposing component tensors.",
+    "C12": " Also: placement histories that put a digit boundary inside the objects of several counters at once (constants crosswise on two meshes), coefficients on mixed spaces over a MeshSequence and their fixed components.",
+    "C13": " Also: scalar-literal constructor calls (IntValue/FloatValue/ComplexValue/as_ufl x int, bool, numpy integer, float, numpy float, complex, numpy complex x the flyweight cache of IntValue as state), including purely imaginary numbers with signed zero real part.",
+    "C16": " Also: transparent wrappers (variable, conj, real, imag, neg, indexed, index sums) over sums of terms of different arity.",
+    "C17": " Also: five mesh kinds (affine, P2, affine manifold, P2 manifold, broken coordinates): the two facet-normal values are opposite exactly on affine H1 meshes with gdim = tdim and independent elsewhere; cell normals and reference normals.",
+    "C18": " Also: symmetric elements with vector/tensor valued, Piola mapped or mixed sub-elements of different degrees, symmetric elements inside mixed elements and vice versa.",
+    "C19": " Also: DAGTraverser rules with keyword context (different subsets of keywords on different paths, one traverser reused across roots, shared caches): the memo key must be (node, full ordered context); the same rule tables run through MultiFunction + map_expr_dag per context.",
+    "C22": " Also: mixed elements whose sub-elements have reference size != physical size (symmetric tensors, Piola vectors on an immersed mesh) in non-last position, with replace_argument True and False.",
     "C21": " Also: images that are numbers or zero tensors, and shape-changing maps of equal rank (2 -> 3, 2x3 -> 3x2).",
     "C25": " Universes with directional spaces of several dimensions at once (related only through an isotropic space between them).",
     "C27": " Form histories include a FormSum of cofunctions, 1.0*a and measures reconfigured with the user's metadata dicts plus degree=/scheme=.",
